@@ -15,12 +15,53 @@ def pvh(args, timeout=3600, check=True):
     return common.pvh(args, timeout=timeout, check=check, env=env, exe_name=EXE)
 
 
+_probe = None
+
+
+def probe_fixes():
+    """Which of the fixes proposed by this group does the tree under test contain?  Four tiny programs
+    are compiled; the answer is handed to TLC through the environment so that the ALGORITHM MODELS
+    (never the rules) follow the tree.  Returns a dict of environment variables."""
+    global _probe
+    if _probe is not None:
+        return _probe
+    os.makedirs(common.WORK, exist_ok=True)
+    graphs = [
+        {"kind": ["c", "s"], "val": [[2, 1], [2, 2]], "ptr": [], "perm": [1, 2]},            # E415, not E416
+        {"kind": ["c", "s"], "val": [[2, 1]], "ptr": [[1, 2]], "perm": [1, 2]},              # |:&S| accepted
+        {"kind": ["s", "s", "s"], "val": [[1, 2], [2, 1]], "ptr": [[3, 1]], "perm": [1, 2, 3]},  # no panic
+    ]
+    cells = [{"fam": "type", "ty": ["arr", "like", "bool"], "pos": "var", "aux": []}]        # [3][]bool rejected
+    gp, go = os.path.join(common.WORK, "modules-probe-g.ndjson"), os.path.join(common.WORK, "modules-probe-g.out")
+    cp, co = os.path.join(common.WORK, "modules-probe-c.ndjson"), os.path.join(common.WORK, "modules-probe-c.out")
+    common.write_ndjson(gp, graphs)
+    common.write_ndjson(cp, cells)
+    pvh(["replay-graphs", gp, go])
+    pvh(["replay-cells", cp, co])
+    g = common.read_ndjson(go)
+    c = common.read_ndjson(co)
+    fixed = {
+        "PENNE_FIXED_E416": any(code == 415 for code, _ in g[0]["diags"]) and not any(code == 416 for code, _ in g[0]["diags"]),
+        "PENNE_FIXED_SIZEOF_PTR": bool(g[1]["ok"]),
+        "PENNE_FIXED_PTR_UNFOUNDED": not g[2].get("panic"),
+        "PENNE_FIXED_LIKE_ELEMENT": not c[0]["ok"] and not c[0].get("panic"),
+    }
+    _probe = {k: ("1" if v else "0") for k, v in fixed.items()}
+    log("[probe] fixes present in the tree under test: %s" % (", ".join(k for k, v in fixed.items() if v) or "none"))
+    return _probe
+
+
+def fixed(name):
+    return probe_fixes().get(name) == "1"
+
+
 def tlc_many(prop, module, cfgs, workers, timeout, heap="6g", parallel=2):
     """Run several MC configurations of one module, `parallel` at a time; returns {cfg: TlcResult}."""
     out = {}
+    env = probe_fixes()
 
     def one(cfg):
-        return cfg, common.tlc(module, cfg, workers=workers, timeout=timeout, heap=heap,
+        return cfg, common.tlc(module, cfg, workers=workers, timeout=timeout, heap=heap, env=env,
                                tag="%s-mc-%s" % (prop, cfg.replace(".cfg", "")))
 
     with concurrent.futures.ThreadPoolExecutor(max_workers=parallel) as ex:
@@ -34,7 +75,7 @@ def tlc_many(prop, module, cfgs, workers, timeout, heap="6g", parallel=2):
 
 def expect_violation(prop, module, cfg, invariant, workers=2, timeout=600):
     """A configuration that is EXPECTED to violate `invariant` (vacuity guard / design-level finding)."""
-    r = common.tlc(module, cfg, workers=workers, timeout=timeout, heap="2g",
+    r = common.tlc(module, cfg, workers=workers, timeout=timeout, heap="2g", env=probe_fixes(),
                    tag="%s-guard-%s" % (prop, cfg.replace(".cfg", "")))
     return r.violated == invariant, r
 
@@ -84,7 +125,7 @@ def validate_traces(module, cfg, files, on_stuck, max_rounds=6, timeout=1800, pa
     rounds = 0
     while todo and rounds < max_rounds:
         rounds += 1
-        results = common.tlc_traces(module, cfg, todo, timeout=timeout, parallel=parallel)
+        results = common.tlc_traces(module, cfg, todo, timeout=timeout, parallel=parallel, extra_env=probe_fixes())
         todo = []
         for res in results:
             outputs.append(res["output"])
